@@ -51,7 +51,67 @@ def run_mutant(patch, props=None, env_extra=None):
         shutil.rmtree(d, ignore_errors=True)
 
 
+def determinism():
+    """same seed => same traces: scenario engines in separate processes and chunkings, tool runs twice, and whole checks under
+    different worker counts / PYTHONHASHSEED values (their evidence must carry identical counters)"""
+    sys.path.insert(0, os.path.join(VERIF, "py"))
+    import vfbuild, common, pipelines, c12, c10
+    bdir = vfbuild.build()
+    bad = 0
+
+    def agg(cmd):
+        out = subprocess.run(cmd, stdout=subprocess.PIPE, stderr=subprocess.PIPE).stdout.decode()
+        m = re.findall(r"agg=([0-9a-f]+)", out)
+        return m[-1] if m else None
+    pool = os.path.join(bdir, "plain", "scn-pool")
+    a = [agg([pool, "run", "7", str(i * 5000), str(i * 5000 + 5000)]) for i in range(4)]
+    b = [agg([pool, "run", "7", str(i * 5000), str(i * 5000 + 5000)]) for i in range(4)]
+    print("pool-sim   20000 runs in 4 chunks, twice:", "identical" if a == b and None not in a else "DIFFERENT %r %r" % (a, b))
+    bad += a != b or None in a
+    with common.Scratch("det") as cd:
+        images, _ = c10.make_images(bdir, 4242, cd, 1)
+        for eng in ("scn-reader", "scn-copy"):
+            for name, valid, _d in images[:1]:
+                cmd = [os.path.join(bdir, "plain", eng), "run", os.path.join(cd, name), "9", "0", "400"]
+                x, y = agg(cmd), agg(cmd)
+                print("%-10s 400 runs twice:" % eng, "identical" if x == y and x else "DIFFERENT %r %r" % (x, y))
+                bad += x != y or not x
+    # tool level: same plan twice => same trace hash, verdict, outputs
+    n = 0
+    diff = 0
+    for kind, prof, ncases, nruns in c12.QUICK[::3]:
+        seed = common.derive(99, kind) >> 1
+        with common.Scratch("det") as s:
+            cd = os.path.join(s, "case")
+            case = pipelines.build_case(bdir, seed, kind, prof, cd)
+            for i in range(12):
+                plan = c12.gen_plan(common.rng(seed, "p", i))
+                o1 = pipelines.run_case(bdir, case, cd, plan)
+                k1 = (o1.trace.hash, o1.key())
+                o2 = pipelines.run_case(bdir, case, cd, plan)
+                n += 1
+                if k1 != (o2.trace.hash, o2.key()):
+                    diff += 1
+                    print("  tool run differs:", kind, i, k1[0], o2.trace.hash)
+    print("tool-sim   %d (pipeline, plan) pairs run twice: %d differ" % (n, diff))
+    bad += diff
+    # whole checks under different worker counts / hash seeds: evidence counters must match
+    import json
+    for prop in ("C12", "C14"):
+        sig = []
+        for env in ({"VERIF_WORKERS": "16", "PYTHONHASHSEED": "1"}, {"VERIF_WORKERS": "3", "PYTHONHASHSEED": "77"}):
+            subprocess.run([os.path.join(VERIF, "vf"), "check", prop], stdout=subprocess.PIPE, stderr=subprocess.PIPE, env=dict(os.environ, **env))
+            ev = json.load(open(os.path.join(VERIF, "evidence", prop + ".json")))
+            c = ev["coverage"]
+            sig.append((c["evaluations"], c["distinct_nontrivial"], json.dumps(c.get("faults_fired", c.get("states_rejected_by_all_readers")), sort_keys=True)))
+        print("%s        16 workers vs 3 workers / other PYTHONHASHSEED:" % prop, "identical counters" if sig[0] == sig[1] else "DIFFERENT %r" % (sig,))
+        bad += sig[0] != sig[1]
+    return 1 if bad else 0
+
+
 def main(argv):
+    if argv and argv[0] == "determinism":
+        return determinism()
     if argv and argv[0] == "mutants":
         pats = argv[1:]
         rc = 0
